@@ -665,6 +665,23 @@ def run(ck: vlib.Check):
                 elif first_diff(c["model"][1], c["expect_py"]):
                     ck.tie_broken("correspondence", f"model presentation differs from the generator's values ({c['name']})",
                                   str(first_diff(c["model"][1], c["expect_py"])))
+    # ---- 3a' the hard-coded TRecCgemCluster layout against what the fixtures' bytes look like (no streamer for the class in the files)
+    rc_l, so_l, se_l = vlib.run_impl_script("c01_cgem_layout_impl.py", [vlib.REPO / "tests" / "data"], timeout=600)
+    if rc_l != 0:
+        ck.tie_broken("correspondence", "cgem-cluster layout plausibility", (se_l or so_l)[-600:])
+    else:
+        lay = json.loads(so_l)["files"]
+        ck.cov["cgem_cluster_hard_coded_layout"] = lay
+        for fn, evd in sorted(lay.items()):
+            ck.case(["cgem-layout", fn])
+            if evd.get("length_words_decoded_as_values"):
+                ck.violation(f"C01:cgem-cluster-hard-coded-layout:{fn}:length-words-decoded-as-values",
+                             f"{fn} TRecEvent/m_recCgemClusterCol ({evd['clusters']} clusters, no streamer for the class in the file): every m_recZ is a subnormal double whose "
+                             f"high word is {evd['m_recZ_high_words']} = the number of m_clusterFlag ints, and the last m_clusterFlag entry is always "
+                             f"{evd['m_clusterFlag_last_column']} = the number of m_stripID ints: the two int members are stored as <count><elements> (std::vector<int>) after "
+                             f"FOUR doubles, the reader takes five doubles + 2 + 4 ints (same byte count); so m_recZ / m_clusterFlag hold framing words and the doubles after "
+                             f"m_recPhi sit one member too early (samples: m_recZ {evd['sample_m_recZ']}, m_clusterFlag {evd['sample_m_clusterFlag']})",
+                             {"mode": "cgem-layout", "file": fn, "evidence": evd})
     # ---- 3b python route (fixtures + synthetic)
     outdir = ck.bdir / "py"
     inp = {"fixtures": str(vlib.REPO / "tests" / "data"), "rootdec": str(rootdec), "branches": SPEC_BRANCHES, "sym_items": c16.SPEC_ITEMS,
